@@ -321,7 +321,14 @@ pub fn h2_roundtrip(
         for (n, v) in rsp.headers() {
             raw.headers.push((n.as_str().to_string(), String::from_utf8_lossy(v.as_bytes()).trim().to_string()));
         }
-        raw.body = tokio::time::timeout(Duration::from_secs(20), rsp.into_body().collect()).await.ok()?.ok()?.to_bytes().to_vec();
+        if method == "HEAD" {
+            // hyper's HTTP/2 server sends the DATA frames of a response to HEAD like any other
+            // (dropshot's error bodies among them) and an HTTP/2 client resets the stream when
+            // they arrive: status and headers are what a HEAD response has to offer
+            let _ = tokio::time::timeout(Duration::from_secs(5), rsp.into_body().collect()).await;
+        } else {
+            raw.body = tokio::time::timeout(Duration::from_secs(20), rsp.into_body().collect()).await.ok()?.ok()?.to_bytes().to_vec();
+        }
         raw.well_formed = true;
         conn_task.abort();
         Some(raw)
